@@ -99,6 +99,7 @@ func cmdUnit(args []string) {
 			units = append(units, e.verifyLemma(l, nil))
 		}
 	}
+	os.MkdirAll("/verif/.work", 0o755)
 	work, _ := os.MkdirTemp("/verif/.work", "unit")
 	if !*keep {
 		defer os.RemoveAll(work)
@@ -168,6 +169,9 @@ func cmdUnit(args []string) {
 	}
 	fmt.Printf("total %.1fs, failures=%d\n", time.Since(t0).Seconds(), bad)
 	if bad > 0 {
+		if !*keep {
+			os.RemoveAll(work)
+		}
 		os.Exit(1)
 	}
 }
